@@ -247,10 +247,42 @@ class InterpCore:
 
     def st_If(self, s, fr):
         v = self.ev(s.test, fr)
+        if self.try_merge_if(s, v, fr):
+            return
         if ops.truth_branch(self.ctx, v, f"if@{s.lineno}"):
             self.exec_block(s.body, fr)
         else:
             self.exec_block(s.orelse, fr)
+
+    def try_merge_if(self, s, cond_v, fr) -> bool:
+        """`if c: obj.attr = <name/attribute expression>` with a symbolic c and a plain data
+        attribute: no fork, the attribute becomes  c ? value : old value"""
+        from .sym import SymIte
+
+        if s.orelse or len(s.body) != 1 or fr.spec:
+            return False
+        st = s.body[0]
+        if not (isinstance(st, ast.Assign) and len(st.targets) == 1 and isinstance(st.targets[0], ast.Attribute)):
+            return False
+        if not isinstance(st.value, (ast.Attribute, ast.Name, ast.Constant)):
+            return False
+        t = ops.truth(self.ctx, cond_v)
+        if isinstance(t, bool):
+            return False
+        tgt = st.targets[0]
+        owner = self.ev(tgt.value, fr)
+        if not isinstance(owner, SObj) or not isinstance(owner.cls, type):
+            return False
+        for k in owner.cls.__mro__:
+            if isinstance(k.__dict__.get(tgt.attr), property):
+                return False  # a setter runs code: handled by forking
+        if tgt.attr not in owner.fields:
+            return False
+        new = self.ev(st.value, fr)
+        old = owner.fields[tgt.attr]
+        self.note_write(owner, tgt.attr, fr)
+        owner.fields[tgt.attr] = SymIte(z3.simplify(t), new, old)
+        return True
 
     def st_FunctionDef(self, s, fr):
         fr.locals[s.name] = Closure(s, fr, fr.module)
@@ -455,7 +487,22 @@ class InterpCore:
                 parts.append(x)
         if not sym:
             return "".join(str(p) for p in parts)
-        return SymStr(self.ctx.fresh("fstr", z3.StringSort()), "str")
+        # pieces that are (symbolic) str values are concatenated; anything else makes it opaque
+        from .sym import i_fmt, str_to_z3
+
+        zs = []
+        for p in parts:
+            if isinstance(p, str):
+                zs.append(z3.StringVal(p))
+            elif isinstance(p, SymStr) and p.kind == "str":
+                zs.append(p.e)
+            elif isinstance(p, int) and not isinstance(p, bool):
+                zs.append(z3.StringVal(str(p)))
+            elif isinstance(p, SymInt):
+                zs.append(i_fmt(p.e))
+            else:
+                return SymStr(self.ctx.fresh("fstr", z3.StringSort()), "str")
+        return SymStr(z3.simplify(z3.Concat(*zs)) if len(zs) > 1 else zs[0], "str")
 
     def ev_Attribute(self, e, fr):
         return self.getattr_value(self.ev(e.value, fr), e.attr, fr)
